@@ -761,10 +761,23 @@ def reserved0(ctx):
     # the lookup may sit in the function or in a closure of it (map/collect form); every
     # defaulted lookup there must default to the invalid id, and none may use the type's default
     vals, others = [], []
-    for q in [p] + sorted(f.path for f in crate.closures_of(p)):
+    cls = sorted(f.path for f in crate.closures_of(p))
+    for q in [p] + cls:
         qa = E.fa(q)
         for b, t in calls_named(qa, "unwrap_or"):
             vals.append(find_const_int(qa, t["args"][1]))
+        # `get(f).map_or(INVALID, |&id| id)`: the same default in combinator form - the mapping
+        # closure (a closure of this one) must hand the stored id through untouched
+        mo = [(b, t) for b, t in calls_named(qa, "map_or") if "Option" in callee_of(t)["path"]]
+        for b, t in mo:
+            vals.append(find_const_int(qa, t["args"][1]))
+        if mo:
+            for cp in sorted(set(c for c in cls if c != q) | set(c.path for c in crate.closures_of(q))):
+                ca = E.fa(cp)
+                pure = not list(ca.calls()) and not any(
+                    s.get("k") == "assign" and s["rv"]["k"] in ("binop", "unop", "cast") for _, _, s in ca.stmts())
+                if not pure:
+                    vals.append(None)
         others += [t for b, t in qa.calls()
                    if any(strip_generics(x).endswith(("unwrap_or_default", "unwrap_or_else"))
                           for x in callee_paths(t))]
